@@ -25,7 +25,7 @@ sed -i "s#\"/repo/#\"$SLOT/repo/#g" "$SLOT/harness/Cargo.toml"
 if ! (cd "$SLOT/repo" && patch -p1 --no-backup-if-mismatch -s < "$PATCH"); then
   echo "MUTANT $PATCH: ERROR(patch does not apply)"; exit 2
 fi
-export LV_HARNESS_DIR="$SLOT/harness" CARGO_TARGET_DIR="$SLOT/target" LV_NO_EVIDENCE=1
+export LV_HARNESS_DIR="$SLOT/harness" CARGO_TARGET_DIR="$SLOT/target" LV_NO_EVIDENCE=1 LV_REPLAY_DIR="$SLOT/replays"
 rc_all=0
 for ID in "$@"; do
   OUT=$(/verif/bin/check "$ID" "$TIER" 2>&1); rc=$?
